@@ -210,3 +210,258 @@ Proof.
   exact (parse_Canon_g input u Hu (abs_ref_nonfile b input Ha) Hp).
 Qed.
 End SpG.
+
+(* ================= 5. the relative state, any override ================= *)
+(* path arms on a special base (rel_sp_out with an override) *)
+Section RelSPg.
+Variable dbg : bool.
+Variable hp hpo : list N -> result host.
+Variable hd : host -> list N.
+Hypothesis HRT : HostRT hp hpo hd.
+Hypothesis HAb : host_above hp hpo hd.
+Variable ovr : option (list N -> list N).
+Variables (sch Z : list N) (ue hs he : N) (hi : host_internal) (pt : option N).
+Notation FRONT := ((sch ++ [58]) ++ Z).
+Notation Bu X q f := (qf_url (FRONT ++ X) (nlen sch) ue hs he hi pt (nlen FRONT) q f).
+Hypothesis Hsc : scheme_canon sch = true.
+Hypothesis Hst : scheme_type_of sch = STSpecialNotFile.
+
+Theorem rel_sp_out_g l c r segs last q f u : usv_list l -> inp_next l = Some (c, r) -> (c =? 63) = false -> (c =? 35) = false ->
+  forallb good_seg_sp segs = true -> good_seg_sp last = true ->
+  parse_relative dbg hp hpo hd ovr CUrlParser STSpecialNotFile (Bu (path_text segs last) q f) l = POk u ->
+  (exists ui h pt' p' q' f', auth_ok hp hpo hd STSpecialNotFile sch ui h pt' p' q' f' /\ pth_ok_sp p'
+                             /\ u = auth_url hd sch ui h pt' p' q' f')
+  \/ (exists segs' last' l', usv_list l' /\ forallb good_seg_sp segs' = true /\ good_seg_sp last' = true /\
+        with_query_and_fragment ovr CUrlParser STSpecialNotFile (nlen sch) ue hs he hi pt (nlen FRONT)
+          (FRONT ++ path_text segs' last') (cbb_rest l') = POk u).
+Proof.
+  intros Hl En E63 E35 Hsg Hla H. pose proof (inp_next_usv l c r Hl En) as Hr.
+  unfold parse_relative, inp_split_first in H. rewrite En in H. rewrite E63, E35 in H. cbn [st_is_special] in H.
+  rewrite andb_true_r in H.
+  change (scheme_end (Bu (path_text segs last) q f)) with (nlen sch) in H.
+  change (path_start (Bu (path_text segs last) q f)) with (nlen FRONT) in H.
+  cbn [username_end host_start host_end hosti port qf_url] in H.
+  destruct ((c =? 47) || (c =? 92)) eqn:Esl.
+  - destruct (inp_count_matching (fun d : N => (d =? 47) || (d =? 92) && true) l) as [sl rm] eqn:Ec.
+    destruct (2 <=? sl).
+    + left. match type of H with context [dassert ?d ?cc] => destruct (dassert d cc) end; cbn [pbind] in H; try discriminate H.
+      cbn [negb] in H. rewrite (frame_colon sch Z ue hs he hi pt) in H.
+      exact (ads_out_sp_g dbg hp hpo hd HRT HAb ovr sch rm u Hsc Hst (count_matching_usv _ _ _ _ Hl Ec) H).
+    + right. rewrite (frame_front sch Z ue hs he hi pt) in H. unfold parse_path in H.
+      destruct (parse_path_loop dbg CUrlParser STSpecialNotFile (nlen FRONT) r (FRONT ++ [47]) (nlen (FRONT ++ [47])) [] true)
+        as [[[s hh] rest]| |] eqn:El; cbn [pbind] in H; try discriminate H.
+      rewrite (Bs_nil FRONT) in El. rewrite app_nil_r in El at 2.
+      apply (loop_inv_sp FRONT dbg r [] [] [] true s hh rest Hr (pend_nil_ok)) in El; try reflexivity.
+      destruct El as (segs' & last' & -> & Hs' & Hl' & _ & ->).
+      exists segs', last', r. rewrite Bs_path. repeat split; assumption.
+  - right. apply orb_false_iff in Esl. destruct Esl as [E47 _]. rewrite before_query_qf in H.
+    rewrite (pop_path_pth STSpecialNotFile FRONT segs last eq_refl (good_seg_no_slash last (good_seg_sp_good last Hla))) in H.
+    cbn [pbind] in H. pose proof (Bs_len_ge FRONT segs) as L.
+    replace (nlen (Bs FRONT segs) =? nlen FRONT) with false in H by lia. cbn [andb] in H.
+    rewrite (split_first_not47 c r _ _ E47) in H.
+    unfold parse_path in H.
+    destruct (parse_path_loop dbg CUrlParser STSpecialNotFile (nlen FRONT) l (Bs FRONT segs) (nlen (Bs FRONT segs)) [] true)
+      as [[[s hh] rest]| |] eqn:El; cbn [pbind] in H; try discriminate H.
+    rewrite <- (app_nil_r (Bs FRONT segs)) in El at 1.
+    apply (loop_inv_sp FRONT dbg l segs [] [] true s hh rest Hl (pend_nil_ok)) in El; try reflexivity; try assumption.
+    destruct El as (segs' & last' & -> & Hs' & Hl' & _ & ->).
+    exists segs', last', l. rewrite Bs_path. repeat split; assumption.
+Qed.
+End RelSPg.
+
+Section RelG.
+Variable dbg : bool.
+Variable hp hpo : list N -> result host.
+Variable hd : host -> list N.
+Hypothesis HRT : HostRT hp hpo hd.
+Hypothesis HAb : host_above hp hpo hd.
+Variable ovr : option (list N -> list N).
+
+Notation auth_ok := (auth_ok hp hpo hd).
+Notation auth_url := (auth_url hd).
+Notation auth_front := (auth_front hd).
+Notation Canon := (Canon hp hpo hd).
+
+(* with_query_and_fragment behind a new canonical path of a record with authority, any override *)
+Lemma auth_wqf_g st sch ui h pt p q f p' rest u : auth_ok st sch ui h pt p q f ->
+  pth_ok p' -> usv_list rest ->
+  with_query_and_fragment ovr CUrlParser st (nlen sch) (nlen sch + 3 + ui_ulen ui) (nlen sch + 3 + nlen (ui_text ui))
+     (nlen sch + 3 + nlen (ui_text ui) + nlen (hd h)) (hi_of_host h) pt (nlen (auth_front sch ui h pt))
+     (auth_front sch ui h pt ++ pth_text p') rest = POk u ->
+  exists q' f', auth_ok st sch ui h pt p' q' f' /\ u = auth_url sch ui h pt p' q' f'.
+Proof.
+  intros K Hp' Hr. rewrite wqf_auth; [|rewrite front_len; lia | apply front_css].
+  destruct (parse_query_and_fragment ovr CUrlParser st (nlen sch) (auth_front sch ui h pt ++ pth_text p') rest)
+    as [[[s4 qs] fs]| |] eqn:E4; cbn [pbind]; try discriminate.
+  apply pqf_out_g in E4; [|exact Hr].
+  destruct E4 as (q' & f' & -> & -> & -> & Bq & Bf & Cq & Cf). intros H. inversion H; subst u. clear H.
+  exists q', f'. split; [|reflexivity].
+  destruct K as [Ksch Kst Kui Kh Kemp Kpt Kp Kq Kf Kb Kbq Kbf]. constructor; assumption.
+Qed.
+
+(* the tail arms (empty, '#'-led, '?'-led) of the relative state on ANY canonical hierarchical base *)
+Theorem rel_tail_g b l u : Canon b -> cannot_be_a_base b = Some false -> usv_list l ->
+  match inp_next l with None => true | Some (c, _) => (c =? 35) || (c =? 63) end = true ->
+  parse_relative dbg hp hpo hd ovr CUrlParser (scheme_type_of (b_scheme b)) b l = POk u -> Canon u.
+Proof.
+  intros Cb Hcb Hl Ht.
+  destruct (Canon_view hp hpo hd HRT b Cb) as (pre & se & ue & hs & he & hi & pt & ps & sch & cbb & q0 & f0 & -> & Hsch & Hse & Hnf & Hcbb & Hq0 & Bq0 & Repl).
+  rewrite Hcb in Hcbb. injection Hcbb as <-.
+  rewrite (b_scheme_qf pre se ue hs he hi pt ps q0 f0 sch Hsch Hse) in *.
+  unfold parse_relative, inp_split_first.
+  destruct (inp_next l) as [[c r]|] eqn:En.
+  - destruct (c =? 63) eqn:E63.
+    + rewrite before_query_qf. change (scheme_end (qf_url pre se ue hs he hi pt ps q0 f0)) with se.
+      destruct (parse_query_and_fragment ovr CUrlParser (scheme_type_of sch) se pre l) as [[[s' qs] fs]| |] eqn:Ep;
+        cbn [pbind]; try discriminate.
+      apply pqf_out_g in Ep; [|exact Hl].
+      destruct Ep as (q' & f' & -> & -> & -> & Bq & Bf & Cq & Cf).
+      cbv beta iota zeta. intros E. injection E as <-.
+      change (url_with (qf_url pre se ue hs he hi pt ps q0 f0) (pre ++ qf_text q' f') (qf_qs (nlen pre) q') (qf_fs (nlen pre) q' f'))
+        with (qf_url pre se ue hs he hi pt ps q' f').
+      apply Repl; try assumption. intros E0. discriminate E0.
+    + destruct (c =? 35) eqn:E35; [|discriminate Ht].
+      intros E. destruct (fragment_only_qf pre se ue hs he hi pt ps q0 f0 l u Hl E) as (F & -> & CF & BF).
+      apply Repl; try assumption. intros E0. discriminate E0.
+  - intros E. injection E as <-. rewrite before_fragment_qf.
+    match goal with |- C02_Canon.Canon _ _ _ ?t => replace t with (qf_url pre se ue hs he hi pt ps q0 None) end.
+    2:{ unfold url_with, qf_url, qf_text.
+        cbn [qf_ftext qf_fs scheme_end username_end host_start host_end hosti port path_start query_start].
+        rewrite app_nil_r. reflexivity. }
+    apply Repl; try assumption; try exact I. intros E0. discriminate E0.
+Qed.
+
+(* a canonical record with a special scheme is of the fourth form *)
+Lemma Canon_special_inv b : Canon b -> scheme_type_of (b_scheme b) = STSpecialNotFile ->
+  exists sch ui h pt p q f, auth_ok STSpecialNotFile sch ui h pt p q f /\ pth_ok_sp p /\ b = auth_url sch ui h pt p q f.
+Proof.
+  intros [sch P q f K | sch segs last q f K | sch ui h pt p q f K | sch ui h pt p q f K Kp] Hsp.
+  - exfalso. rewrite opaque_url_qf in Hsp. destruct (opaque_pre_sch sch P) as [S1 S2].
+    rewrite (b_scheme_qf _ _ _ _ _ _ _ _ q f sch S1 S2) in Hsp. rewrite (ok_ns _ _ _ _ K) in Hsp. discriminate.
+  - exfalso. rewrite noauth_url_qf in Hsp. destruct (noauth_pre_sch sch (path_text segs last)) as [S1 S2].
+    rewrite (b_scheme_qf _ _ _ _ _ _ _ _ q f sch S1 S2) in Hsp. rewrite (nk_ns _ _ _ _ _ K) in Hsp. discriminate.
+  - exfalso. rewrite auth_url_qf in Hsp. destruct (auth_pre_sch hd sch ui h pt p) as [S1 S2].
+    rewrite (b_scheme_qf _ _ _ _ _ _ _ _ q f sch S1 S2) in Hsp. rewrite (ak_st _ _ _ _ _ _ _ _ _ _ _ K) in Hsp. discriminate.
+  - exists sch, ui, h, pt, p, q, f. split; [exact K | split; [exact Kp | reflexivity]].
+Qed.
+
+Lemma auth_url_scheme sch ui h pt p q f : b_scheme (auth_url sch ui h pt p q f) = sch.
+Proof.
+  rewrite auth_url_qf. destruct (auth_pre_sch hd sch ui h pt p) as [S1 S2]. exact (b_scheme_qf _ _ _ _ _ _ _ _ q f sch S1 S2).
+Qed.
+
+(* EVERY arm of the relative state on a canonical special base, any override *)
+Theorem rel_special_Canon b l u : Canon b -> scheme_type_of (b_scheme b) = STSpecialNotFile -> usv_list l ->
+  parse_relative dbg hp hpo hd ovr CUrlParser STSpecialNotFile b l = POk u -> Canon u.
+Proof.
+  intros Cb Hsp Hl Hp.
+  destruct (Canon_special_inv b Cb Hsp) as (sch & ui & h & pt & p & q & f & K & Kp & Eb).
+  assert (cannot_be_a_base b = Some false) as Hcb by (rewrite Eb; exact (proj2 (auth_url_wf hp hpo hd HRT _ _ _ _ _ _ _ _ K))).
+  destruct (match inp_next l with None => true | Some (c, _) => (c =? 35) || (c =? 63) end) eqn:Et.
+  - rewrite <- Hsp in Hp. exact (rel_tail_g b l u Cb Hcb Hl Et Hp).
+  - destruct (inp_next l) as [[c r]|] eqn:En; [|discriminate Et].
+    apply orb_false_iff in Et. destruct Et as [E35 E63].
+    subst b. rewrite auth_url_qf in Hp. unfold auth_pre in Hp. rewrite (auth_front_Z hd) in Hp.
+    destruct p as [[segs last]|]; [|contradiction]. destruct Kp as [Ksegs Klast].
+    apply (rel_sp_out_g dbg hp hpo hd HRT HAb ovr sch _ _ _ _ _ _ (ak_sch _ _ _ _ _ _ _ _ _ _ _ K) (ak_st _ _ _ _ _ _ _ _ _ _ _ K)
+             l c r segs last q f u Hl En E63 E35 Ksegs Klast) in Hp.
+    destruct Hp as [(ui' & h' & pt' & p' & q' & f' & K' & Kp' & ->) | (segs' & last' & l' & Hl' & Hs' & Hla' & Hw)];
+      [exact (Canon_special hp hpo hd sch ui' h' pt' p' q' f' K' Kp')|].
+    rewrite <- (auth_front_Z hd) in Hw.
+    destruct (auth_wqf_g STSpecialNotFile sch ui h pt _ q f (Some (segs', last')) (cbb_rest l') u K
+                (conj (good_segs_sp_good segs' Hs') (good_seg_sp_good last' Hla'))
+                (usv_cbb_rest l' Hl') Hw) as (q' & f' & K' & ->).
+    exact (Canon_special hp hpo hd sch ui h pt _ q' f' K' (conj Hs' Hla')).
+Qed.
+End RelG.
+
+(* ================= 6. joins: every scheme-less reference and same-scheme special references, any override ================= *)
+(* the references with the special (non-file) scheme of the base followed by fewer than two slashes / back-slashes:
+   exactly the special non-file references abs_ref leaves out *)
+Definition same_ref (b : url) (input : list N) : bool :=
+  match parse_scheme CUrlParser (input_new_trim_c0 input) with
+  | Some (sch, rem) =>
+      match scheme_type_of sch with
+      | STSpecialNotFile => (fst (inp_count_matching is_slash_or_bslash rem) <? 2) && list_eqb (b_scheme b) sch
+      | _ => false
+      end
+  | None => false
+  end.
+
+Lemma nonfile_abs_or_same b input : nonfile_input input = true -> abs_ref b input = true \/ same_ref b input = true.
+Proof.
+  unfold nonfile_input, abs_ref, same_ref.
+  destruct (parse_scheme CUrlParser (input_new_trim_c0 input)) as [[sch rem]|]; [|discriminate].
+  destruct (scheme_type_of sch); [discriminate | | left; reflexivity]. intros _.
+  destruct ((fst (inp_count_matching is_slash_or_bslash rem) <? 2) && list_eqb (b_scheme b) sch); [right | left]; reflexivity.
+Qed.
+
+Section JoinG.
+Variable dbg : bool.
+Variable hp hpo : list N -> result host.
+Variable hd : host -> list N.
+Hypothesis HRT : HostRT hp hpo hd.
+Hypothesis HAb : host_above hp hpo hd.
+Variable ovr : option (list N -> list N).
+
+Notation Canon := (Canon hp hpo hd).
+
+Lemma Canon_scheme_kind b : Canon b ->
+  scheme_type_of (b_scheme b) = STNotSpecial \/ scheme_type_of (b_scheme b) = STSpecialNotFile.
+Proof.
+  intros [sch P q f K | sch segs last q f K | sch ui h pt p q f K | sch ui h pt p q f K Kp].
+  - left. rewrite opaque_url_qf. destruct (opaque_pre_sch sch P) as [S1 S2].
+    rewrite (b_scheme_qf _ _ _ _ _ _ _ _ q f sch S1 S2). exact (ok_ns _ _ _ _ K).
+  - left. rewrite noauth_url_qf. destruct (noauth_pre_sch sch (path_text segs last)) as [S1 S2].
+    rewrite (b_scheme_qf _ _ _ _ _ _ _ _ q f sch S1 S2). exact (nk_ns _ _ _ _ _ K).
+  - left. rewrite (auth_url_scheme hd). exact (ak_st _ _ _ _ _ _ _ _ _ _ _ K).
+  - right. rewrite (auth_url_scheme hd). exact (ak_st _ _ _ _ _ _ _ _ _ _ _ K).
+Qed.
+
+(* EVERY reference without a scheme against a canonical base: NO premise on the override *)
+Theorem join_rel_Canon_g b input u : Canon b -> usv_list input -> rel_ref input = true ->
+  parse_url dbg hp hpo hd ovr (Some b) input = POk u -> Canon u.
+Proof.
+  intros Cb Hu Hr Hp. destruct (Canon_scheme_kind b Cb) as [Hns | Hsp].
+  - apply (join_rel_Canon dbg hp hpo hd HRT HAb ovr b input u Cb Hu Hr); [|exact Hp]. right. rewrite Hns. reflexivity.
+  - pose proof (trim_usv input Hu) as Hl. unfold rel_ref in Hr. unfold parse_url in Hp.
+    set (l := input_new_trim_c0 input) in *.
+    destruct (parse_scheme CUrlParser l) as [[s0 r0]|]; [discriminate|].
+    destruct (inp_starts_with_char 35 l) eqn:E35.
+    + destruct (Canon_view hp hpo hd HRT b Cb) as (pre & se & ue & hs & he & hi & pt & ps & sch & cbb & q0 & f0 & -> & Hsch & Hse & Hnf & Hcbb & Hq0 & Bq0 & Repl).
+      destruct (fragment_only_qf pre se ue hs he hi pt ps q0 f0 l u Hl Hp) as (F & -> & CF & BF).
+      apply Repl; try assumption. intros _ _ E0. discriminate E0.
+    + destruct (Canon_special_inv hp hpo hd b Cb Hsp) as (sch & ui & h & pt & p & q & f & K & Kp & Eb).
+      assert (cannot_be_a_base b = Some false) as Hcb by (rewrite Eb; exact (proj2 (auth_url_wf hp hpo hd HRT _ _ _ _ _ _ _ _ K))).
+      rewrite Hcb, Hsp in Hp. cbn [st_is_file] in Hp.
+      exact (rel_special_Canon dbg hp hpo hd HRT HAb ovr b l u Cb Hsp Hl Hp).
+Qed.
+
+(* item 1: "http:x" against an http base *)
+Theorem join_same_Canon_g b input u : Canon b -> usv_list input -> same_ref b input = true ->
+  parse_url dbg hp hpo hd ovr (Some b) input = POk u -> Canon u.
+Proof.
+  intros Cb Hu Hs Hp. unfold same_ref in Hs. unfold parse_url in Hp.
+  destruct (parse_scheme CUrlParser (input_new_trim_c0 input)) as [[sch rem]|] eqn:Es; [|discriminate].
+  pose proof (scheme_rem_usv input sch rem Hu Es) as Hur.
+  destruct (scheme_type_of sch) eqn:Hst; try discriminate.
+  unfold parse_with_scheme in Hp. rewrite Hst in Hp.
+  destruct (to_u32 (nlen sch)) as [se| |]; cbn [pbind] in Hp; try discriminate.
+  destruct (inp_count_matching is_slash_or_bslash rem) as [sl rm]. cbn [fst] in Hs. rewrite Hs in Hp.
+  apply andb_true_iff in Hs. destruct Hs as [_ Hsch]. apply list_eqb_spec in Hsch.
+  assert (scheme_type_of (b_scheme b) = STSpecialNotFile) as Hsp by (rewrite Hsch; exact Hst).
+  destruct (Canon_special_inv hp hpo hd b Cb Hsp) as (sch' & ui & h & pt & p & q & f & K & Kp & Eb).
+  assert (cannot_be_a_base b = Some false) as Hcb by (rewrite Eb; exact (proj2 (auth_url_wf hp hpo hd HRT _ _ _ _ _ _ _ _ K))).
+  rewrite Hcb in Hp. cbn [negb passert] in Hp.
+  destruct dbg; cbn [pbind] in Hp; exact (rel_special_Canon _ hp hpo hd HRT HAb ovr b rem u Cb Hsp Hur Hp).
+Qed.
+
+(* every reference with a non-file scheme, whatever the base's relation to it *)
+Theorem join_nonfile_Canon_g b input u : Canon b -> usv_list input -> nonfile_input input = true ->
+  parse_url dbg hp hpo hd ovr (Some b) input = POk u -> Canon u.
+Proof.
+  intros Cb Hu Hn Hp. destruct (nonfile_abs_or_same b input Hn) as [Ha | Hs].
+  - exact (join_abs_Canon_g dbg hp hpo hd HRT HAb ovr b input u Hu Ha Hp).
+  - exact (join_same_Canon_g b input u Cb Hu Hs Hp).
+Qed.
+End JoinG.
